@@ -264,6 +264,7 @@ def execute(plan):
                 ev['r'] = w.do(i, op)
             except Exception as e:
                 x = exc_info(e)
+                x['msg'] = x['msg'].replace(w.tmp, '<tmp>')      # traces must not depend on scratch paths
                 ev['r'] = 'raise:%s' % x['type']
                 ev['exc'] = x
                 w.probes['failed_ops'] += 1
